@@ -1,5 +1,132 @@
-(* C13 — placeholder while the proofs are being written *)
+(* C13 — FIPS build fails closed.
+   Only statements, each closed by an already-proved lemma (Proofs/MiniCVerdicts.v, whose
+   obligations run the verified checker on the wrapper bodies regenerated from the current
+   tree with -DFIPS_MODE -DSAFE_PARAM, Gen/WrappersFipsGen.v, including the translated body of
+   isal_self_tests).
+
+   Worlds: KStatus = what asm_check_self_tests_status returns (0 passed, 1 failed, anything
+   else: not run); KExt aes_id 0 / KExt sha_id 0 = what _aes_self_tests / _sha_self_tests
+   return; KArg i = the arguments; KMemcmp = what memcmp over the XTS key material observes.
+   All theorems quantify over ALL worlds with otherwise-valid arguments (`valid`: no parameter
+   is offending).  "work" = a store, a loop, or a call of any internal symbol other than the
+   status check/set and the two self-test runs.  known13 lists the entry points with a
+   confirmed, reported defect (fixes/): the theorems cover every other entry point. *)
 From Coq Require Import NArith List.
-From ISAL Require Import Model.MiniC Model.MiniCCheck Model.MiniCInst.
-Example C13_placeholder : spec_covers = true.
-Proof. vm_compute. reflexivity. Qed.
+From ISAL Require Import Model.MiniC Model.MiniCCheck Model.MiniCInst Gen.WrappersGen Gen.WrappersFipsGen
+  Spec.WrapperSpec Proofs.MiniCSound Proofs.MiniCVerdicts Proofs.MiniCXts.
+Import ListNotations.
+
+(* self-tests failed: every approved entry point returns the self-test error (an XTS entry
+   point may instead refuse identical keys), stores nothing and reaches no crypto symbol *)
+Theorem C13_failed_blocks : forall (e : espec) (d : fundef) (w : world),
+  In e specs -> listed known13 e = false -> e_class e = Approved ->
+  ftab_get WrappersFipsGen.table (e_id e) = Some d ->
+  valid e w -> w KStatus = 1%N ->
+  exists r tr, run WrappersFipsGen.table w d = Leaf r tr /\ no_work aes_id sha_id tr = true /\
+               (ret_is r ERR_SELF_TEST = true \/ ret_is r ERR_XTS_SAME_KEYS = true).
+Proof. intros e d w He Hk Hc Hd. exact (f13_failed e He d Hd Hk Hc w). Qed.
+Print Assumptions C13_failed_blocks.
+
+(* no cryptographic work before the self-tests have run and passed: if the trace contains any
+   work, then before it the status was consulted, it was not "failed", and either it was
+   "passed" or both self-test runs happened before the work and both returned 0 *)
+Theorem C13_no_work_before_self_tests : forall (e : espec) (d : fundef) (w : world),
+  In e specs -> listed known13 e = false -> e_class e = Approved ->
+  ftab_get WrappersFipsGen.table (e_id e) = Some d -> valid e w ->
+  exists r tr, run WrappersFipsGen.table w d = Leaf r tr /\
+    (no_work aes_id sha_id tr = false ->
+     calls B_CHECK (before_work aes_id sha_id tr) = true /\ w KStatus <> 1%N /\
+     (w KStatus = 0%N \/
+      (calls aes_id (before_work aes_id sha_id tr) = true /\ calls sha_id (before_work aes_id sha_id tr) = true /\
+       w (KExt aes_id 0) = 0%N /\ w (KExt sha_id 0) = 0%N))).
+Proof. intros e d w He Hk Hc Hd. exact (f13_order e He d Hd Hk Hc w). Qed.
+Print Assumptions C13_no_work_before_self_tests.
+
+(* not run yet, and one of the two runs fails now: the call is blocked the same way *)
+Theorem C13_failing_run_blocks : forall (e : espec) (d : fundef) (w : world),
+  In e specs -> listed known13 e = false -> e_class e = Approved ->
+  ftab_get WrappersFipsGen.table (e_id e) = Some d -> valid e w ->
+  w KStatus <> 0%N -> w KStatus <> 1%N -> ~ (w (KExt aes_id 0) = 0%N /\ w (KExt sha_id 0) = 0%N) ->
+  exists r tr, run WrappersFipsGen.table w d = Leaf r tr /\ no_work aes_id sha_id tr = true /\
+               (ret_is r ERR_SELF_TEST = true \/ ret_is r ERR_XTS_SAME_KEYS = true).
+Proof. intros e d w He Hk Hc Hd. exact (f13_failing_run e He d Hd Hk Hc w). Qed.
+Print Assumptions C13_failing_run_blocks.
+
+(* the gate is not vacuous: with a passed status the call goes through to the one internal
+   symbol with the arguments passed through (or, XTS, the key pair is refused; or, where the
+   internal symbol cannot take the in-domain arguments — CBC with len = 0 — 0 without work) *)
+Theorem C13_passed_goes_through : forall (e : espec) (d : fundef) (w : world),
+  In e specs -> listed known13 e = false -> e_class e = Approved ->
+  ftab_get WrappersFipsGen.table (e_id e) = Some d -> valid e w -> w KStatus = 0%N ->
+  exists r tr, run WrappersFipsGen.table w d = Leaf r tr /\
+    (refused aes_id sha_id r tr = true \/ shape_ok (e_shape e) r (core aes_id sha_id tr) = true \/
+     (eval_form w (e_pre e) = false /\ ret_is r 0%N = true /\ no_work aes_id sha_id tr = true)).
+Proof. intros e d w He Hk Hc Hd. exact (f13_passed e He d Hd Hk Hc w). Qed.
+Print Assumptions C13_passed_goes_through.
+
+(* non-approved algorithms (MD5, SM3, multi-hash, rolling hash): the invalid-algorithm error
+   and an empty trace in every world — any arguments, any status *)
+Theorem C13_non_approved_refused : forall (e : espec) (d : fundef) (w : world),
+  In e specs -> listed known13 e = false -> e_class e = NonApproved ->
+  ftab_get WrappersFipsGen.table (e_id e) = Some d ->
+  run WrappersFipsGen.table w d = Leaf (Some (SConst ERR_FIPS_INVALID_ALGO)) [].
+Proof. intros e d w He Hk Hc Hd. exact (f13_nonapproved e He d Hd Hk Hc w). Qed.
+Print Assumptions C13_non_approved_refused.
+
+(* XTS: whenever the key material compares equal in the sense of the entry's specification
+   (raw keys: the 16 / 32 key bytes; expanded encryption keys: the whole schedules; expanded
+   decryption keys: the slots that hold the raw key — derived from key VALUES in
+   Proofs/MiniCXts.v), the call returns ISAL_CRYPTO_ERR_XTS_SAME_KEYS and nothing at all was
+   called, whatever the self-test status *)
+Theorem C13_xts_same_keys_refused : forall (e : espec) (d : fundef) (w : world),
+  In e specs -> listed known13 e = false -> e_class e = Approved ->
+  ftab_get WrappersFipsGen.table (e_id e) = Some d -> valid e w ->
+  eval_form w (e_samekey e) = true ->
+  exists r tr, run WrappersFipsGen.table w d = Leaf r tr /\ ret_is r ERR_XTS_SAME_KEYS = true /\
+               no_call aes_id sha_id tr = true.
+Proof. intros e d w He Hk Hc Hd. exact (f13_same_keys e He d Hd Hk Hc w). Qed.
+Print Assumptions C13_xts_same_keys_refused.
+
+(* non-vacuity: isal_aes_cbc_dec_192 with valid arguments and a failed status returns the
+   self-test error after the status check only; with status "not run" and a failing AES
+   self-test it runs both tests, publishes the verdict and returns the self-test error *)
+Example C13_nonvacuous :
+  In e_cbc specs /\ listed known13 e_cbc = false /\ e_class e_cbc = Approved /\
+  ftab_get WrappersFipsGen.table (e_id e_cbc) = Some WrappersFipsGen.fn_isal_aes_cbc_dec_192 /\
+  valid e_cbc w_failed /\ w_failed KStatus = 1%N /\
+  (exists tr, run WrappersFipsGen.table w_failed WrappersFipsGen.fn_isal_aes_cbc_dec_192 =
+      Leaf (Some (SConst ERR_SELF_TEST)) tr /\
+      no_work aes_id sha_id tr = true /\ calls B_CHECK tr = true /\ calls aes_id tr = false) /\
+  valid e_cbc w_notrun_aes_fails /\
+  (exists tr, run WrappersFipsGen.table w_notrun_aes_fails WrappersFipsGen.fn_isal_aes_cbc_dec_192 =
+      Leaf (Some (SConst ERR_SELF_TEST)) tr /\
+      no_work aes_id sha_id tr = true /\ calls B_CHECK tr = true /\ calls aes_id tr = true /\
+      calls B_SET tr = true).
+Proof. exact nonvac13. Qed.
+
+(* ---- XTS: from key VALUES to the observations the specification is written in.
+   mem i = the bytes behind pointer argument i (0: k2, the tweak key; 1: k1, the data key);
+   mem_consistent: every memcmp observation of the world reports equality of those bytes. *)
+
+(* raw keys (16 / 32 bytes) and expanded encryption keys (whole schedules): k1 = k2 *)
+Theorem C13_xts_identical_raw_or_enc_expanded : forall (w : world) (mem : N -> list N) (n : N),
+  mem_consistent w mem -> mem 0%N = mem 1%N -> eval_form w (mem_eq 0 0 n) = true.
+Proof. exact xts_identical_bytes. Qed.
+Print Assumptions C13_xts_identical_raw_or_enc_expanded.
+
+(* expanded decryption keys, AES-128: k2 = an encryption schedule, k1 = the decryption schedule
+   (Spec/AES.dec_schedule) of the same schedule => the observation isal_aes_xts_dec_128_expanded_key
+   must refuse on *)
+Theorem C13_xts_identical_dec_expanded_128 : forall (w : world) (mem : N -> list N) (rks : list (list N)),
+  mem_consistent w mem -> length rks = 11 -> blocks16 rks -> blocks16 (AES.dec_schedule rks) ->
+  mem 0%N = concat rks -> mem 1%N = concat (AES.dec_schedule rks) ->
+  eval_form w (mem_eq 160 0 16) = true.
+Proof. exact xts_dec_expanded_identical_128. Qed.
+Print Assumptions C13_xts_identical_dec_expanded_128.
+
+Theorem C13_xts_identical_dec_expanded_256 : forall (w : world) (mem : N -> list N) (rks : list (list N)),
+  mem_consistent w mem -> length rks = 15 -> blocks16 rks -> blocks16 (AES.dec_schedule rks) ->
+  mem 0%N = concat rks -> mem 1%N = concat (AES.dec_schedule rks) ->
+  eval_form w (FAnd (mem_eq 224 0 16) (mem_eq 0 224 16)) = true.
+Proof. exact xts_dec_expanded_identical_256. Qed.
+Print Assumptions C13_xts_identical_dec_expanded_256.
